@@ -45,7 +45,7 @@ def valuations():
     ]
 
 
-GLOBALS_SRC = "G = 7\nGL = [4, 0]\nIMPOSSIBLE = object()\ndef ident(v):\n    return v\ndef add(a, b=0, *rest, k=0):\n    return a + b + sum(rest) + k\n"
+GLOBALS_SRC = "G = 7\nGL = [4, 0]\nx = 100\nxs = [9, 9]\nC = 50\nCL = [7, 7, 7]\nclass _Imp:\n    def __repr__(self):\n        return 'IMPOSSIBLE'\nIMPOSSIBLE = _Imp()\ndef ident(v):\n    return v\ndef add(a, b=0, *rest, k=0):\n    return a + b + sum(rest) + k\n"
 CLOSURE = {"C": 5, "CL": [1]}
 
 # ---------------------------------------------------------------------------------------------
@@ -106,7 +106,7 @@ PRODS = {
     "none": [],
 }
 
-FRAMES = ["{0}", "not ({0})", "ident({0})", "(({0}) and False)", "(False or ident({0}))", "(({0}) == IMPOSSIBLE)"]
+FRAMES = ["{0}", "not ({0})", "ident({0})", "({0}) and False", "False or ident({0})", "({0}) == IMPOSSIBLE"]
 
 
 def depth1(typ):
@@ -231,6 +231,8 @@ class _Wrap(ast.NodeTransformer):
         self.text = text
         self.info = []
         self.in_comp = 0
+        self.in_first_iter = 0
+        self.in_fstring = 0
 
     def _w(self, node, new):
         i = len(self.info)
@@ -238,6 +240,8 @@ class _Wrap(ast.NodeTransformer):
             "type": type(node).__name__,
             "text": ast.get_source_segment(self.text, node),
             "in_comp": self.in_comp > 0,
+            "in_first_iter": self.in_first_iter > 0,
+            "in_fstring": self.in_fstring > 0,
             "id": getattr(node, "id", None),
             "target": node.target.id if isinstance(node, ast.NamedExpr) else None,
             "is_all_genexp": (isinstance(node, ast.Call) and isinstance(node.func, ast.Name) and node.func.id == "all"
@@ -250,14 +254,22 @@ class _Wrap(ast.NodeTransformer):
             if isinstance(node, (ast.Starred, ast.Slice)):
                 return self.generic_visit(node)
             if isinstance(node, ast.FormattedValue):
-                node.value = self.visit(node.value)
-                if node.format_spec is not None:
-                    node.format_spec = self.generic_visit(node.format_spec)  # JoinedStr of the spec: descend, do not wrap
+                self.in_fstring += 1
+                try:
+                    node.value = self.visit(node.value)
+                    if node.format_spec is not None:
+                        node.format_spec = self.generic_visit(node.format_spec)  # JoinedStr of the spec: descend, do not wrap
+                finally:
+                    self.in_fstring -= 1
                 return node
             if isinstance(node, (ast.ListComp, ast.SetComp, ast.DictComp, ast.GeneratorExp)):
                 # the first iterable is evaluated in the enclosing scope, everything else inside the comprehension scope
                 first = node.generators[0]
-                first.iter = self.visit(first.iter)
+                self.in_first_iter += 1
+                try:
+                    first.iter = self.visit(first.iter)
+                finally:
+                    self.in_first_iter -= 1
                 self.in_comp += 1
                 try:
                     for gi, gen in enumerate(node.generators):
@@ -343,8 +355,14 @@ def parse_message(msg, condition_text, description=None):
         if not rest.startswith(pre):
             raise ValueError("description missing")
         rest = rest[len(pre):]
-    if not rest.startswith(condition_text):
+    ct = condition_text
+    while not rest.startswith(ct):
+        # the reported text is that of the lambda body: redundant outer parentheses of the condition are not part of it
+        if ct.startswith("(") and ct.endswith(")") and _balanced(ct):
+            ct = ct[1:-1]
+            continue
         raise ValueError("condition text {!r} not found at the start of {!r}".format(condition_text, rest[:120]))
+    condition_text = ct
     tail = rest[len(condition_text):]
     lines, blocks = [], []
     if tail == "":
